@@ -86,13 +86,16 @@ def run(cmd, cwd=None, logfile=None):
 
 
 def prune(keep):
-    """Keep the two most recent tree hashes (plus the one in use)."""
+    """Keep the tree hash in use, the six most recent others, and anything touched within the last two hours
+    (several checks may be building different trees at the same time)."""
     if not os.path.isdir(BUILD_ROOT):
         return
-    ds = [d for d in os.listdir(BUILD_ROOT) if os.path.isdir(os.path.join(BUILD_ROOT, d)) and d != keep]
+    now = time.time()
+    ds = [d for d in os.listdir(BUILD_ROOT) if os.path.isdir(os.path.join(BUILD_ROOT, d)) and d != keep and not d.startswith("tlc-")]
     ds.sort(key=lambda d: os.path.getmtime(os.path.join(BUILD_ROOT, d)), reverse=True)
-    for d in ds[1:]:
-        shutil.rmtree(os.path.join(BUILD_ROOT, d), ignore_errors=True)
+    for d in ds[6:]:
+        if now - os.path.getmtime(os.path.join(BUILD_ROOT, d)) > 7200:
+            shutil.rmtree(os.path.join(BUILD_ROOT, d), ignore_errors=True)
 
 
 def ensure_lib(variant):
